@@ -303,3 +303,75 @@ Section MMap.
   Definition mm_it_second (o : list (A * nat)) (it : option nat) : res nat :=
     do p <- mm_it_deref o it; Ok (snd p).
 End MMap.
+(* ==== primitives added for utlru_cache (tools/cpp2coq_utlru.py) ==== *)
+
+(* std::list<size_t> whose nodes are created (emplace) and destroyed (erase, clear) — utlru's
+   m_ttl_list.  The representation is the one of the state record of TtlLit.v: the sequence of
+   the nodes, each a pair (tag, value held); a node is named by the value it holds (the convention
+   of te_ttl in TtlLit.v), the tag is not part of the C++ object (the record shares the field with
+   the keys of tlru's multimap; emplace writes 0).  An iterator is [It v] (the node holding v) or
+   [End]; the iterator operations are those of the formal std::list of LruLit.v on the node names. *)
+Section NodeList.
+  Local Open Scope string_scope.
+  Local Open Scope list_scope.
+  Local Open Scope nat_scope.
+
+  Definition nl_names (o : list (Z * nat)) : list nat := map snd o.
+  (* l.begin() *)
+  Definition nl_begin (o : list (Z * nat)) : iter := l_begin (nl_names o).
+  (* *it *)
+  Definition nl_deref (o : list (Z * nat)) (i : iter) : res nat := l_deref (nl_names o) i.
+  (* std::prev(it), --it *)
+  Definition nl_prev (o : list (Z * nat)) (i : iter) : res iter := l_prev (nl_names o) i.
+  (* l.emplace(pos, v): a new node holding v in front of pos; the result is the list and the new node *)
+  Fixpoint nl_insert_before (pos : iter) (v : nat) (o : list (Z * nat)) : list (Z * nat) :=
+    match o with
+    | [] => [(0%Z, v)]
+    | (z, x) :: r => if iter_eqb pos (It x) then (0%Z, v) :: (z, x) :: r else (z, x) :: nl_insert_before pos v r
+    end.
+  Definition nl_emplace (o : list (Z * nat)) (pos : iter) (v : nat) : res (list (Z * nat) * nat) :=
+    if valid_it (nl_names o) pos then Ok (nl_insert_before pos v o, v) else UB "emplace at an invalid list iterator".
+  (* l.erase(it) *)
+  Fixpoint nl_remove (n : nat) (o : list (Z * nat)) : list (Z * nat) :=
+    match o with [] => [] | (z, x) :: r => if Nat.eqb n x then r else (z, x) :: nl_remove n r end.
+  Definition nl_erase (o : list (Z * nat)) (i : iter) : res (list (Z * nat)) :=
+    match i with
+    | End => UB "erase(end())"
+    | It n => if mem_nat n (nl_names o) then Ok (nl_remove n o) else UB "erase through an invalid list iterator"
+    end.
+  (* a stored std::list iterator kept as the name of its node (None = singular), read as an iterator *)
+  Definition opt_node (p : option nat) : res iter :=
+    match p with Some n => Ok (It n) | None => UB "use of a singular list iterator" end.
+
+  (* std::iota(l.begin(), l.end(), start) over a std::list<size_t> of LruLit.v (nodes named by the
+     value they hold): the node at position p now holds start + p, so the list of names becomes
+     seq start (length l), and an iterator kept from before — it stays with its node — is renamed
+     accordingly; an iterator that was not a node of the list gets a name that is not one either *)
+  Definition l_iota (l : list nat) (start : nat) : list nat := seq start (List.length l).
+  Fixpoint pos_of (n : nat) (l : list nat) : option nat :=
+    match l with
+    | [] => None
+    | x :: r => if Nat.eqb n x then Some 0 else match pos_of n r with Some p => Some (S p) | None => None end
+    end.
+  Definition l_iota_it (l : list nat) (start : nat) (i : iter) : iter :=
+    match i with
+    | End => End
+    | It n => match pos_of n l with Some p => It (start + p) | None => It (start + List.length l + n) end
+    end.
+End NodeList.
+
+Section IndexMore.
+  Context {K : Type} `{EqDec K}.
+  Local Open Scope string_scope.
+  Local Open Scope nat_scope.
+  (* *it for an iterator of the index: the pair (key, mapped value) of its node *)
+  Definition mit_deref {A} (ix : list (K * A)) (it : option K) : res (K * A) :=
+    match it with
+    | None => UB "dereference of end() of the index"
+    | Some k => match assoc k ix with Some a => Ok (k, a) | None => UB "dereference of an erased index iterator" end
+    end.
+  (* m.reserve(n): afterwards no rehash happens while size() <= n.  A reserve may rehash, which
+     invalidates the stored iterators, so it is accepted on an empty index only *)
+  Definition umap_reserve {A} (ix : list (K * A)) (n : nat) : res nat :=
+    match ix with [] => Ok n | _ => UB "reserve on a non-empty index: a rehash invalidates stored iterators" end.
+End IndexMore.
